@@ -164,7 +164,7 @@ class Enum(Type):
         return "enum " + self.name
 
     def key(self):
-        return "enum:" + self.name
+        return "enum:" + (self.name or "<anon>")
 
 
 class Field(object):
